@@ -291,9 +291,10 @@ func (p *poller) modify(fd int, event Event) error {
 }
 
 func (p *poller) Del(slot *Slot) error {
-	err := p.DelRead(slot)
-	if err == nil {
-		return p.DelWrite(slot)
+	errRead := p.DelRead(slot)
+	errWrite := p.DelWrite(slot)
+	if errRead == nil {
+		return errWrite
 	}
 	return nil
 }
